@@ -783,7 +783,7 @@ func genAddr(rng *rand.Rand) netip.Addr {
 }
 
 func genC12(rng *rand.Rand, tier string) (cases []string) {
-	scale := 1
+	scale := 3
 	if tier == "thorough" {
 		scale = 60
 	}
